@@ -130,6 +130,8 @@ pub struct Node {
     /// View / timer deadline of the live incarnation, from its last snapshot.
     pub view: Option<u64>,
     pub deadline: time::Deadline,
+    /// Last snapshot of the live incarnation.
+    pub snap: Option<bft::verif::Snapshot>,
 }
 
 #[derive(Clone)]
@@ -226,6 +228,7 @@ impl Cluster {
                 restarts: 0,
                 view: None,
                 deadline: time::Deadline::Infinite,
+                snap: None,
             })
             .collect();
         let adversary = Adversary::new(committee, kit::stream(cfg.seed, "adv"));
@@ -285,6 +288,7 @@ impl Cluster {
         let view_timeout = time::Duration::milliseconds(self.cfg.view_timeout_ms);
         hub.ev(format!("n{i}.{inc} start"));
         self.nodes[i].view = None;
+        self.nodes[i].snap = None;
         self.sched.set_spawn_tag(tag_of(i, inc));
         let done = gtokio::spawn(async move {
             let root = ctx::test_root(&clock);
@@ -411,6 +415,7 @@ impl Cluster {
             self.nodes[i].view = Some(s.view.0);
             self.nodes[i].deadline = s.view_timeout;
             self.hub.on_snapshot(i, inc, &s, &durable);
+            self.nodes[i].snap = Some(s);
         }
         for i in 0..self.n() {
             // Discard whatever dying incarnations still say.
@@ -436,7 +441,7 @@ impl Cluster {
                     for m in msgs {
                         self.hub.ev(format!("n{i}.{inc} -> {}", describe(&m)));
                         self.hub.on_outbound(i, inc, &m, &durable);
-                        self.hub.check_self_justifying(i, inc, &m, self.nodes[i].view);
+                        self.hub.check_self_justifying(i, inc, &m, self.nodes[i].view, self.nodes[i].snap.as_ref());
                         self.adversary.observe(&m);
                         for to in 0..self.n() {
                             if self.is_byz(to) {
